@@ -138,9 +138,25 @@ pub fn reps(name: &str) -> Vec<Vec<A>> {
         "String.to_lowercase" | "String.to_uppercase" => crate::unicode::case_strings().into_iter().map(|s| vec![A::S(s)]).collect(),
         // every White_Space code point and its look-alikes at both ends
         "String.trim" | "String.trim_start" | "String.trim_end" => crate::unicode::ws_strings().into_iter().map(|s| vec![A::S(s)]).collect(),
+        // IEEE special values x special values: a fast path keyed on one exponent/base value lives in one cell of this grid
+        "f64.pow" => {
+            let t = FLOAT_GRID;
+            t.iter().flat_map(|x| t.iter().map(move |y| vec![A::F64(x.to_bits()), A::F64(y.to_bits())])).collect()
+        }
+        "f32.pow" => {
+            let t = FLOAT_GRID;
+            t.iter().flat_map(|x| t.iter().map(move |y| vec![A::F32((*x as f32).to_bits()), A::F32((*y as f32).to_bits())])).collect()
+        }
         _ => vec![],
     }
 }
+
+/// bases / exponents at which pow has a case of its own in IEEE 754 / C99 (and the usual algebraic shortcuts:
+/// 0, 1, -1, 1/2, 2, 3, 1/3, odd/even integers, huge, tiny, infinities, NaN)
+const FLOAT_GRID: &[f64] = &[
+    0.0, -0.0, 1.0, -1.0, 0.5, -0.5, 2.0, -2.0, 3.0, -3.0, 0.25, 1.5, 1.0 / 3.0, 4.0, 10.0, 1e-300, -1e-300, 1e300, -1e300,
+    f64::INFINITY, f64::NEG_INFINITY, f64::NAN, 5e-324, 9007199254740993.0, 0.9999999999999999,
+];
 
 fn view_len(v: View, s: &str) -> u64 {
     match v {
